@@ -92,7 +92,7 @@ def operand_of(s):
     if k == "equ":
         return value_text(s["val"])
     if k == "org":
-        return "$%04X" % s["addr"]
+        return s.get("text") or "$%04X" % s["addr"]         # "text": another spelling of the same address
     if k == "nam":
         return s["text"]
     if k == "setdp":
